@@ -22,7 +22,15 @@ WRAPPING = ["*<impl core::ops::arith::Add for ruint::Uint<BITS, LIMBS>>::add",
             "*<impl core::ops::arith::MulAssign for ruint::Uint<BITS, LIMBS>>::mul_assign",
             "*ruint::Uint::wrapping_add", "*ruint::Uint::wrapping_sub", "*ruint::Uint::wrapping_mul",
             "*ruint::Uint::overflowing_add", "*ruint::Uint::overflowing_sub", "*ruint::Uint::overflowing_mul",
-            "*ruint::Uint::saturating_add", "*ruint::Uint::saturating_sub", "*ruint::Uint::saturating_mul"]
+            "*ruint::Uint::saturating_add", "*ruint::Uint::saturating_sub", "*ruint::Uint::saturating_mul",
+            # the same methods as they are actually rendered (`ruint::add::<impl ruint::Uint<BITS, LIMBS>>::wrapping_add`)
+            "*<impl ruint::Uint<BITS, LIMBS>>::wrapping_add", "*<impl ruint::Uint<BITS, LIMBS>>::wrapping_sub", "*<impl ruint::Uint<BITS, LIMBS>>::wrapping_mul",
+            "*<impl ruint::Uint<BITS, LIMBS>>::overflowing_add", "*<impl ruint::Uint<BITS, LIMBS>>::overflowing_sub", "*<impl ruint::Uint<BITS, LIMBS>>::overflowing_mul",
+            "*<impl ruint::Uint<BITS, LIMBS>>::saturating_add", "*<impl ruint::Uint<BITS, LIMBS>>::saturating_sub", "*<impl ruint::Uint<BITS, LIMBS>>::saturating_mul",
+            "*<impl ruint::Uint<BITS, LIMBS>>::wrapping_pow", "*<impl ruint::Uint<BITS, LIMBS>>::saturating_pow", "*<impl ruint::Uint<BITS, LIMBS>>::wrapping_neg",
+            # narrowing the 256-bit amount: `to` panics when it does not fit, the others lose the value
+            "*<impl ruint::Uint<BITS, LIMBS>>::to", "*<impl ruint::Uint<BITS, LIMBS>>::wrapping_to", "*<impl ruint::Uint<BITS, LIMBS>>::saturating_to",
+            "*<impl ruint::Uint<BITS, LIMBS>>::as_limbs", "*<impl ruint::Uint<BITS, LIMBS>>::into_limbs"]
 
 
 def run(R):
@@ -67,7 +75,9 @@ def run(R):
         R.inst("C16.divrem", "K6 provenance", "unit = amount / CONVERSION, remainder = amount % CONVERSION", len(convs), ok2)
 
     # (2) no wrapping arithmetic
-    R.no_calls("C16.nowrap", [FROM_STR, AMT + "AttoTokens::checked_add", AMT + "AttoTokens::checked_sub"], WRAPPING,
+    import panics  # noqa: F401
+    R.no_panic_reach("C16.parse.nopanic", [FROM_STR], descr="from_str answers every input with a value or an error (no panic-capable site reachable)")
+    R.no_calls("C16.nowrap", [FROM_STR, AMT + "AttoTokens::checked_add", AMT + "AttoTokens::checked_sub", DISPLAY], WRAPPING,
                "wrapping ruint arithmetic in parse/checked paths",
                suppress={(FROM_STR, "ruint::mul::<impl core::ops::arith::Mul for ruint::Uint<BITS, LIMBS>>::mul"):
                          "remainder scaling parsed(<=18 chars) * 10^(18-len): len<=18 enforced by the preceding checked_sub, "
